@@ -286,7 +286,14 @@ func (b *ReadWrite) FinalizeReadOnly() error {
 func (b *ReadWrite) finalizeReadOnlyWithoutMutex() error {
 	if b.opts.WriteAsCarV1 {
 		// all blocks are already properly written to the CARv1 inner container and there's
-		// no additional finalization required at the end of the file for a complete v1
+		// no additional finalization required at the end of the file for a complete v1,
+		// other than dropping what a failed section write may have left after the last
+		// complete section.
+		if !b.finalized && !b.ronly.closed {
+			if err := b.f.Truncate(b.dataWriter.Position()); err != nil {
+				return err
+			}
+		}
 		b.finalized = true
 		return nil
 	}
